@@ -84,7 +84,7 @@ def run(PID, tier, replay_path=None, cases=None, strict=False):
     items = [common.read_json(replay_path)['item']] if replay_path else build_items(tier, seed, cases, strict)
     runs = [{'items': items[i:i + 2]} for i in range(0, len(items), 2)]
     traces = replay.replay('calls', {'schema': oalgen.OAL_SCHEMA}, runs, timeout=3000)
-    c = c04.consts(fuel=6000)
+    c = c04.consts(maxi=30, fuel=20000)
     mod = tlagen.mc_module('MC_OalCallTrace', ['OalCallTrace'], c)
     verdicts, st = trace.validate('MC_OalCallTrace', tlagen.cfg_constants(c), traces,
                                   modules=['OalExec', 'OalCallTrace', 'TraceBase'], extra={'MC_OalCallTrace.tla': mod})
